@@ -3,6 +3,7 @@ package main
 import (
 	"fmt"
 	"math"
+	"strings"
 
 	"github.com/tdewolff/canvas"
 	"verifharness/hc"
@@ -227,4 +228,15 @@ func regress(c *hc.Ctx) {
 		P("M0 0Q-1 1 -3 -8.152zM1 -3L4 6C-1 1 2 0 2 0").Filling(canvas.NonZero)
 		return ""
 	})
+	// 4e53250: the sweep split a status segment directly below its left endpoint and panicked
+	// "impossible: first segment became vertical ..." (other panics of the sweep are separate classes)
+	{
+		sub := "M0 0A10 2.5 90 0 0 4 2A5 0.5 90 1 0 3.292893218813452 -5.071067811865475A5 0.5 90 1 0 4 2A5 0.5 90 1 0 3.669128103471353 3.4593189430208358L7 5z"
+		c.Evals++
+		c.Count("regress:panic:And:impossible:-first-segment-became-vertica")
+		msg, _ := guard(func() { P("M0 0L-2 2M2 2L-5 -8.5").And(P(sub + sub + sub + sub)) })
+		if strings.Contains(msg, "first segment became vertical") {
+			fail(c, "panic:And:impossible:-first-segment-became-vertica", "And panicked: "+msg, map[string]any{"regress": "(M0 0L-2 2M2 2L-5 -8.5).And(4 x " + sub + ")"})
+		}
+	}
 }
